@@ -58,6 +58,12 @@ type Program struct {
 
 // harnessOverlay maps every file under /verif/harness/<rel>/ to
 // /repo/<rel>/zz_verif_<name>, and adds the runtime for the given mode.
+// harnessFilter, when non-empty, limits the injected harness sources to the
+// listed files (paths relative to /verif/harness). A check loads only the files
+// it needs, so a change to pion/rtp that stops some other property's harness
+// from compiling cannot take this check down with it.
+var harnessFilter map[string]bool
+
 func harnessOverlay(verifDir, mode string) (virt map[string]string, dirs []string, err error) {
 	virt = map[string]string{}
 	root := filepath.Join(verifDir, "harness")
@@ -72,6 +78,12 @@ func harnessOverlay(verifDir, mode string) (virt map[string]string, dirs []strin
 		rel, _ := filepath.Rel(root, filepath.Dir(path))
 		if rel == "_rt" || strings.HasPrefix(rel, "_") {
 			return nil
+		}
+		if len(harnessFilter) > 0 {
+			full, _ := filepath.Rel(root, path)
+			if !harnessFilter[full] {
+				return nil
+			}
 		}
 		rel = strings.TrimPrefix(rel, "root")
 		rel = strings.TrimPrefix(rel, "/")
